@@ -185,6 +185,11 @@ func (x *Exec) run() {
 		}
 		t := x.sym.Const("in_"+sanitize(name), x.w.sortOf(ty, x.model))
 		st.assume(x.typeInv(t, ty, st.alloc))
+		x.assumeDeepInv(st, t, ty)
+		if ty.K == TFloat && x.model.Float == SReal {
+			st.assume(Not(Eq(t, mk("rnan", SReal))))
+			x.sym.Const("rnan", SReal)
+		}
 		x.entryVals[name] = Val{T: t, Ty: ty}
 		st.vars[v] = t
 	}
@@ -536,4 +541,42 @@ func (x *Exec) trustedList() []string {
 	}
 	sort.Strings(out)
 	return out
+}
+
+// assumeDeepInv: type invariants of what a parameter points to at entry
+// (pointee of a pointer, elements of a slice of slices), relative to the
+// entry allocation counter.
+func (x *Exec) assumeDeepInv(st *State, t *Term, ty *Ty) {
+	switch ty.K {
+	case TPtr:
+		if ty.Elem.K == TStruct || ty.Elem.K == TSlice || (ty.Elem.K == TInt && ty.Elem.Unsigned) {
+			_, h := x.ptrHeapOf(st, ty.Elem)
+			v := Select(h, t)
+			st.assume(Implies(Not(Eq(t, IntLit(0))), x.typeInv(v, ty.Elem, st.alloc)))
+			if ty.Elem.K == TStruct {
+				for i, f := range ty.Elem.Struct.Fields {
+					if f.Ty.K == TSlice && (f.Ty.Elem.K == TSlice || f.Ty.Elem.K == TStruct) {
+						x.assumeDeepInv(st, x.structGet(v, ty.Elem, i), f.Ty)
+					}
+				}
+			}
+		}
+	case TSlice:
+		if ty.Elem.K == TSlice || ty.Elem.K == TStruct || ty.Elem.K == TPtr {
+			_, h := x.elemHeapOf(st, ty.Elem)
+			k := BoundVar{Name: x.freshBound("k"), Sort: SInt}
+			kt := mk(k.Name, SInt)
+			ev := Select(Select(h, slReg(t)), kt)
+			inv := x.typeInv(ev, ty.Elem, st.alloc)
+			if !isLit(inv, "true") {
+				st.assume(Forall([]BoundVar{k}, inv))
+			}
+		}
+	case TStruct:
+		for i, f := range ty.Struct.Fields {
+			if f.Ty.K == TSlice || f.Ty.K == TPtr {
+				x.assumeDeepInv(st, x.structGet(t, ty, i), f.Ty)
+			}
+		}
+	}
 }
